@@ -6,7 +6,7 @@ import itertools
 from hypothesis import strategies as st
 from vf.dr import D
 from vf import refgen, vargen, enz, drive, cvmodel as M
-from vf.model import Ref, write_reference
+from vf.model import Ref, write_reference, translate
 
 PEPSINS = ['pepsin ph1.3', 'pepsin ph2.0']
 # rules that cut rarely (long products spanning many variants): a long tail of rare
@@ -713,7 +713,7 @@ def circ_rare_signature(case, ref:Ref, rec, seq):
     frags = sorted(tuple(f) for f in rec['frags'])
     small = [x for x in recs if x['kind'] == 'small' and any(a <= x['g'] and
         x['g'] + len(x['ref']) <= b for a, b in frags)]
-    if not small or len(small) > 3:
+    if not small or len(small) > 6:
         return None
     loops = set()
     for k in range(0, len(small) + 1):
@@ -728,13 +728,21 @@ def circ_rare_signature(case, ref:Ref, rec, seq):
                 out += M.apply_edits(gseq[a:b], eds)
             loops.add(out)
     loops = sorted(loops)
-    wide = dict(p, min_length=1, max_length=10 ** 6, min_mw=0.)
-    for four in itertools.product(loops, repeat=4):
-        if len(set(four)) == 1:
+    # the peptide (W>F undone where needed) as a stretch of the translation of consecutive
+    # copies that carry different allele sets; as few copies as the peptide can span
+    shortest = min(len(x) for x in loops)
+    ncopies = min(4, (3 * len(seq) + 2) // max(1, shortest) + 2)
+    if len(loops) ** ncopies > 60000:
+        return None
+    targets = {seq}
+    if 'F' in seq:
+        targets |= {seq[:i] + 'W' + seq[i + 1:] for i, c in enumerate(seq) if c == 'F'}
+    for copies in itertools.product(loops, repeat=ncopies):
+        if len(set(copies)) == 1:
             continue
-        full = ''.join(four)
-        for st_ in M.atg_starts(full):
-            prods = M.orf_products(full, st_, wide, strict=False)
-            if seq in prods or ('F' in seq and seq in M.add_w2f(set(prods), wide, False)):
+        full = ''.join(copies)
+        for fr in range(3):
+            pr = translate(full[fr:])
+            if any(t in pr for t in targets):
                 return 'mixed'
     return None
